@@ -216,13 +216,17 @@ def run_stream_case(case, chooser):
     log = []
     stream = Instrumented(data, chooser, log)
     problems = []
-    content = C.content_from_stream(stream, ContentType("application", "octet-stream"), chunk_size, buffer_now, so, sw)
-    after_ctor = len(log)
-    it = content.iter_bytes()
-    if disturbed:
-        # (another detail over the same stream was drained meanwhile, or a writer appended)
-        stream.pos = len(data) if stream.pos != len(data) else 0
-    chunks = list(it)
+    try:
+        content = C.content_from_stream(stream, ContentType("application", "octet-stream"), chunk_size, buffer_now, so, sw)
+        after_ctor = len(log)
+        it = content.iter_bytes()
+        if disturbed:
+            # (another detail over the same stream was drained meanwhile, or a writer appended)
+            stream.pos = len(data) if stream.pos != len(data) else 0
+        chunks = list(it)
+    except Exception as e:
+        # (every generated offset is a valid position of the stream)
+        return [("stream-raised", "%s: %s after stream operations %r" % (type(e).__name__, e, log))], ((), tuple(log))
     after_iter = len(log)
     want = expected_slice(data, so, sw)
     if b"".join(chunks) != want:
